@@ -290,4 +290,538 @@ theorem openapiDoc_inv (es : List Entry) (h : ∀ e ∈ es, '/' ∉ e.name ∧ r
     have he := h e List.mem_cons_self
     exact ih (fun x hx => h x (List.mem_cons_of_mem _ hx)) _ (step_inv d e he.1 he.2 hd)
 
+/-! ### operations -/
+
+theorem opsOfPaths_append (a b : Dict) : opsOfPaths (a ++ b) = opsOfPaths a ++ opsOfPaths b := by
+  simp [opsOfPaths]
+
+theorem methodsOf_itemFor (e : Entry) : methodsOf (.obj (itemFor e)) =
+    (if e.crud.contains 'R' then [c!"get"] else []) ++ (if e.crud.contains 'D' then [c!"delete"] else []) := by
+  rw [itemFor_eq]
+  cases e.crud.contains 'R' <;> cases e.crud.contains 'D' <;> rfl
+
+theorem step_paths_fresh (d : Doc) (e : Entry) (h1 : e.route ∉ keys d.paths) (h2 : itemRoute e.route e.id ∉ keys d.paths)
+    (h3 : e.route ≠ itemRoute e.route e.id) (hok : crudOK e.crud = true) :
+    (step d e).paths = d.paths ++ (if e.crud.contains 'C' then [(e.route, .obj [(c!"post", postOp e.name)])] else []) ++
+      [(itemRoute e.route e.id, .obj (itemFor e))] := by
+  simp only [OpenApi.step, hok, if_true]
+  split
+  · rw [setKey_fresh d.paths _ _ h1, setKey_fresh]
+    simp only [keys, List.map_append, List.map_cons, List.map_nil, List.mem_append, List.mem_singleton, not_or]
+    exact ⟨h2, fun h => h3 h.symm⟩
+  · rw [setKey_fresh _ _ _ h2]; simp
+
+theorem opsOfPaths_step (d : Doc) (e : Entry) (h1 : e.route ∉ keys d.paths) (h2 : itemRoute e.route e.id ∉ keys d.paths)
+    (h3 : e.route ≠ itemRoute e.route e.id) (hok : crudOK e.crud = true) :
+    opsOfPaths (step d e).paths = opsOfPaths d.paths ++ requested e := by
+  rw [step_paths_fresh d e h1 h2 h3 hok, opsOfPaths_append, opsOfPaths_append, List.append_assoc]
+  congr 1
+  unfold requested
+  rw [List.append_assoc]
+  congr 1
+  · split
+    · simp [opsOfPaths, methodsOf, keys, httpMethods]
+    · simp [opsOfPaths]
+  · simp only [opsOfPaths, List.flatMap_cons, List.flatMap_nil, List.append_nil, methodsOf_itemFor]
+    cases e.crud.contains 'R' <;> cases e.crud.contains 'D' <;> simp
+
+theorem keys_step_sublist (d : Doc) (e : Entry) (h1 : e.route ∉ keys d.paths) (h2 : itemRoute e.route e.id ∉ keys d.paths)
+    (h3 : e.route ≠ itemRoute e.route e.id) (hok : crudOK e.crud = true) :
+    (keys (step d e).paths).Sublist (keys d.paths ++ pathKeys e) := by
+  rw [step_paths_fresh d e h1 h2 h3 hok]
+  simp only [keys, List.map_append, List.map_cons, List.map_nil, pathKeys, List.append_assoc]
+  apply List.Sublist.append (List.Sublist.refl _)
+  split
+  · exact List.Sublist.refl _
+  · simp
+
+theorem opsOfPaths_foldl (es : List Entry) (d : Doc) (hnd : (keys d.paths ++ es.flatMap pathKeys).Nodup)
+    (hok : ∀ e ∈ es, crudOK e.crud = true) :
+    opsOfPaths (es.foldl step d).paths = opsOfPaths d.paths ++ es.flatMap requested := by
+  induction es generalizing d with
+  | nil => simp
+  | cons e es ih =>
+    simp only [List.flatMap_cons, pathKeys] at hnd
+    have hnd' := hnd
+    rw [List.nodup_append] at hnd
+    obtain ⟨_, hr, hdis⟩ := hnd
+    have h1 : e.route ∉ keys d.paths := fun hm => hdis _ hm _ (by simp) rfl
+    have h2 : itemRoute e.route e.id ∉ keys d.paths := fun hm => hdis _ hm _ (by simp) rfl
+    have h3 : e.route ≠ itemRoute e.route e.id := by
+      intro heq
+      simp only [List.cons_append, List.nil_append, List.nodup_cons, List.mem_cons] at hr
+      exact hr.1 (Or.inl heq)
+    have hoke := hok e List.mem_cons_self
+    rw [List.foldl_cons, ih (step d e) ?_ (fun x hx => hok x (List.mem_cons_of_mem _ hx)), opsOfPaths_step d e h1 h2 h3 hoke]
+    · simp
+    · refine List.Nodup.sublist ?_ hnd'
+      have := keys_step_sublist d e h1 h2 h3 hoke
+      have := List.Sublist.append this (List.Sublist.refl (es.flatMap pathKeys))
+      simpa [pathKeys, List.append_assoc] using this
+
+/-! ### path template parameters -/
+
+theorem tparams_noOpen (s t : Str) (h : '{' ∉ s) : tparams (s ++ t) none = tparams t none := by
+  induction s with
+  | nil => rfl
+  | cons c cs ih =>
+    have hc : (c == '{') = false := by
+      rw [beq_eq_false_iff_ne]; intro e; exact h (e ▸ List.mem_cons_self)
+    simp only [List.cons_append, tparams, hc, Bool.false_eq_true, ↓reduceIte]
+    exact ih (fun m => h (List.mem_cons_of_mem _ m))
+
+theorem tparams_capture (id t acc : Str) (h : '}' ∉ id) :
+    tparams (id ++ '}' :: t) (some acc) = (acc.reverse ++ id) :: tparams t none := by
+  induction id generalizing acc with
+  | nil => simp [tparams]
+  | cons c cs ih =>
+    have hc : (c == '}') = false := by
+      rw [beq_eq_false_iff_ne]; intro e; exact h (e ▸ List.mem_cons_self)
+    simp only [List.cons_append, tparams, hc, Bool.false_eq_true, ↓reduceIte]
+    rw [ih _ (fun m => h (List.mem_cons_of_mem _ m))]; simp
+
+theorem tparams_route (route : Str) (h : '{' ∉ route) : tparams route none = [] := by
+  have := tparams_noOpen route [] h
+  simpa [tparams] using this
+
+theorem tparams_itemRoute (route id : Str) (h : '{' ∉ route) (hi : '}' ∉ id) : tparams (itemRoute route id) none = [id] := by
+  unfold itemRoute
+  rw [List.append_assoc, List.append_assoc, tparams_noOpen route _ h]
+  simp only [List.cons_append, List.nil_append, tparams]
+  simp only [show ('/' == '{') = false by decide, show ('{' == '{') = true by decide, Bool.false_eq_true, ↓reduceIte]
+  rw [tparams_capture id [] [] hi]; simp [tparams]
+
+theorem declared_itemFor (e : Entry) : declared (.obj (itemFor e)) = [e.id] := by
+  rw [itemFor_eq]; rfl
+
+theorem declared_postItem (name : Str) : declared (.obj [(c!"post", postOp name)]) = [] := rfl
+
+/-- every stored path item declares the template parameters of its key -/
+def PInv (paths : Dict) : Prop := ∀ kv ∈ paths, ∀ x ∈ tparams kv.1 none, x ∈ declared kv.2
+
+theorem step_pinv (d : Doc) (e : Entry) (hr : '{' ∉ e.route) (hi : '}' ∉ e.id) (h : PInv d.paths) : PInv (step d e).paths := by
+  have h1 : PInv (if e.crud.contains 'C' then setKey d.paths e.route (.obj [(c!"post", postOp e.name)]) else d.paths) := by
+    split
+    · intro kv hkv x hx
+      rcases mem_setKey _ _ _ _ hkv with hk | rfl
+      · exact h kv hk x hx
+      · rw [tparams_route _ hr] at hx; cases hx
+    · exact h
+  intro kv hkv x hx
+  simp only [OpenApi.step] at hkv
+  split at hkv
+  · rcases mem_setKey _ _ _ _ hkv with hk | rfl
+    · exact h1 kv hk x hx
+    · rw [tparams_itemRoute _ _ hr hi] at hx
+      rw [declared_itemFor]; exact hx
+  · exact h1 kv hkv x hx
+
+theorem openapiDoc_pinv (es : List Entry) (h : ∀ e ∈ es, '{' ∉ e.route ∧ '}' ∉ e.id) : PInv (openapiDoc es).paths := by
+  unfold openapiDoc
+  suffices ∀ d, PInv d.paths → PInv (es.foldl step d).paths from this init (by intro kv hkv; simp [init] at hkv)
+  induction es with
+  | nil => intro d hd; exact hd
+  | cons e es ih =>
+    intro d hd
+    have he := h e List.mem_cons_self
+    exact ih (fun x hx => h x (List.mem_cons_of_mem _ hx)) _ (step_pinv d e he.1 he.2 hd)
+
+/-! ### the schema stored for a model -/
+
+theorem lookup_map_replace_ne {α} (d : List (Str × α)) (k k' : Str) (v : α) (hne : k ≠ k') :
+    lookup (d.map (fun kv => if kv.1 == k then (k, v) else kv)) k' = lookup d k' := by
+  have hb : (k == k') = false := by rw [beq_eq_false_iff_ne]; exact hne
+  induction d with
+  | nil => rfl
+  | cons x xs ih =>
+    obtain ⟨k0, v0⟩ := x
+    by_cases hk : (k0 == k) = true
+    · have hk0 : k0 = k := by simpa using hk
+      have hb0 : (k0 == k') = false := by rw [hk0]; exact hb
+      simp only [List.map_cons, hk, ↓reduceIte, lookup, hb, hb0, Bool.false_eq_true]
+      exact ih
+    · simp only [List.map_cons, hk, Bool.false_eq_true, ↓reduceIte, lookup]
+      rw [ih]
+
+theorem lookup_map_replace_self {α} (d : List (Str × α)) (k : Str) (v : α) (h : d.any (·.1 == k) = true) :
+    lookup (d.map (fun kv => if kv.1 == k then (k, v) else kv)) k = some v := by
+  induction d with
+  | nil => simp at h
+  | cons x xs ih =>
+    obtain ⟨k0, v0⟩ := x
+    by_cases hk : (k0 == k) = true
+    · simp only [List.map_cons, hk, ↓reduceIte, lookup, beq_self_eq_true]
+    · have hxs : xs.any (·.1 == k) = true := by
+        simp only [List.any_cons] at h
+        simpa [hk] using h
+      simp only [List.map_cons, hk, Bool.false_eq_true, ↓reduceIte, lookup]
+      exact ih hxs
+
+theorem lookup_append_ne {α} (d : List (Str × α)) (k k' : Str) (v : α) (hne : k ≠ k') :
+    lookup (d ++ [(k, v)]) k' = lookup d k' := by
+  have hb : (k == k') = false := by rw [beq_eq_false_iff_ne]; exact hne
+  induction d with
+  | nil => simp [lookup, hb]
+  | cons x xs ih =>
+    obtain ⟨k0, v0⟩ := x
+    simp only [List.cons_append, lookup]; rw [ih]
+
+theorem lookup_append_self {α} (d : List (Str × α)) (k : Str) (v : α) (h : d.any (·.1 == k) = false) :
+    lookup (d ++ [(k, v)]) k = some v := by
+  induction d with
+  | nil => simp [lookup]
+  | cons x xs ih =>
+    obtain ⟨k0, v0⟩ := x
+    simp only [List.any_cons, Bool.or_eq_false_iff] at h
+    simp only [List.cons_append, lookup, h.1, Bool.false_eq_true, ↓reduceIte]
+    exact ih h.2
+
+theorem lookup_setKey_self {α} (d : List (Str × α)) (k : Str) (v : α) : lookup (setKey d k v) k = some v := by
+  unfold setKey; split
+  · rename_i h; exact lookup_map_replace_self d k v h
+  · rename_i h; exact lookup_append_self d k v (Bool.eq_false_iff.mpr h)
+
+theorem lookup_setKey_ne {α} (d : List (Str × α)) (k k' : Str) (v : α) (hne : k ≠ k') : lookup (setKey d k v) k' = lookup d k' := by
+  unfold setKey; split
+  · exact lookup_map_replace_ne d k k' v hne
+  · exact lookup_append_ne d k k' v hne
+
+theorem schemas_foldl_other (es : List Entry) (d : Doc) (n : Str) (h : ∀ e ∈ es, e.name ≠ n) :
+    lookup (es.foldl step d).schemas n = lookup d.schemas n := by
+  induction es generalizing d with
+  | nil => rfl
+  | cons e es ih =>
+    rw [List.foldl_cons, ih _ (fun x hx => h x (List.mem_cons_of_mem _ hx))]
+    simp only [OpenApi.step]
+    exact lookup_setKey_ne _ _ _ _ (h e List.mem_cons_self)
+
+theorem schemas_foldl_mem (es : List Entry) (d : Doc) (hnd : (es.map (·.name)).Nodup) (e : Entry) (he : e ∈ es) :
+    lookup (es.foldl step d).schemas e.name = some (.obj (stripDollar e.model)) := by
+  induction es generalizing d with
+  | nil => cases he
+  | cons x xs ih =>
+    simp only [List.map_cons, List.nodup_cons] at hnd
+    rw [List.foldl_cons]
+    rcases List.mem_cons.mp he with rfl | hmem
+    · rw [schemas_foldl_other xs _ _ (fun y hy heq => hnd.1 (by rw [← heq]; exact List.mem_map_of_mem (f := (·.name)) hy))]
+      simp only [OpenApi.step]
+      exact lookup_setKey_self _ _ _
+    · exact ih _ hnd.2 hmem
+
+/-! ### `str.rpartition` on the request-body reference -/
+
+theorem isPrefixOf_false_of_length_lt (p l : Str) (h : l.length < p.length) : p.isPrefixOf l = false := by
+  induction p generalizing l with
+  | nil => simp at h
+  | cons a as ih =>
+    cases l with
+    | nil => rfl
+    | cons b bs =>
+      simp only [List.isPrefixOf]
+      rw [ih bs (by simpa using h)]; simp
+
+theorem isPrefixOf_self (p : Str) : p.isPrefixOf p = true := by
+  induction p with
+  | nil => rfl
+  | cons a as ih => simp [List.isPrefixOf, ih]
+
+theorem rfindFrom_short (p l : Str) (i : Nat) (best : Option Nat) (h : l.length < p.length) : rfindFrom p l i best = best := by
+  induction l generalizing i best with
+  | nil =>
+    have : p.isEmpty = false := by cases p <;> simp at h ⊢
+    simp [rfindFrom, this]
+  | cons c cs ih =>
+    simp only [rfindFrom, isPrefixOf_false_of_length_lt p (c :: cs) h, Bool.false_eq_true, ↓reduceIte]
+    exact ih _ _ (by simp at h ⊢; omega)
+
+/-- the last occurrence of `p` in `s ++ p` is the final one, whatever `s` contains -/
+theorem rfindFrom_append_self (p s : Str) (i : Nat) (best : Option Nat) (hp : p ≠ []) :
+    rfindFrom p (s ++ p) i best = some (i + s.length) := by
+  induction s generalizing i best with
+  | nil =>
+    cases p with
+    | nil => exact absurd rfl hp
+    | cons c cs =>
+      simp only [List.nil_append, rfindFrom, isPrefixOf_self, ↓reduceIte, List.length_nil, Nat.add_zero]
+      exact rfindFrom_short _ _ _ _ (by simp)
+  | cons d ds ih =>
+    simp only [List.cons_append, rfindFrom, List.length_cons]
+    rw [ih]; congr 1; omega
+
+theorem rfind_append_self (p s : Str) (hp : p ≠ []) : rfind (s ++ p) p = some s.length := by
+  unfold rfind; rw [rfindFrom_append_self p s 0 none hp]; simp
+
+/-- **`body_name.rpartition("Body")[0]` recovers the name**, also for names that contain "Body" -/
+theorem rpartition_bodyName (n : Str) : (rpartition (bodyName n) c!"Body").1 = n := by
+  unfold rpartition bodyName
+  rw [rfind_append_self _ _ (by decide)]
+  simp
+
+theorem rfindFrom_absent (c : Char) (t : Str) (i : Nat) (best : Option Nat) (h : c ∉ t) : rfindFrom [c] t i best = best := by
+  induction t generalizing i best with
+  | nil => simp [rfindFrom]
+  | cons x xs ih =>
+    have hx : (c == x) = false := by
+      rw [beq_eq_false_iff_ne]; intro e; exact h (e ▸ List.mem_cons_self)
+    simp only [rfindFrom, List.isPrefixOf, hx, Bool.false_and, Bool.false_eq_true, ↓reduceIte]
+    exact ih _ _ (fun m => h (List.mem_cons_of_mem _ m))
+
+theorem rfindFrom_last_char (c : Char) (s t : Str) (i : Nat) (best : Option Nat) (h : c ∉ t) :
+    rfindFrom [c] (s ++ c :: t) i best = some (i + s.length) := by
+  induction s generalizing i best with
+  | nil =>
+    simp only [List.nil_append, rfindFrom, List.isPrefixOf, beq_self_eq_true, Bool.true_and, ↓reduceIte, List.length_nil, Nat.add_zero]
+    cases t with
+    | nil => simp [rfindFrom]
+    | cons x xs =>
+      have := rfindFrom_absent c (x :: xs) (i + 1) (some i) h
+      simpa [List.isPrefixOf] using this
+  | cons d ds ih =>
+    simp only [List.cons_append, rfindFrom, List.length_cons]
+    rw [ih]; congr 1; omega
+
+/-- `ref.rpartition("/")[2]` of the request-body reference is the body name -/
+theorem rpartition_bodyRef (n : Str) (h : '/' ∉ n) : (rpartition (bodyRef n) c!"/").2.2 = bodyName n := by
+  have hb : '/' ∉ bodyName n := slash_not_mem_bodyName n h
+  have e : bodyRef n = c!"#/components/requestBodies" ++ '/' :: bodyName n := by
+    simp [bodyRef, bodyPrefix]
+  unfold rpartition rfind
+  rw [e, rfindFrom_last_char '/' _ _ 0 none hb]
+  simp
+
+/-! ### `openapi_bulk`: closure -/
+
+/-- the request body `openapi_bulk` registers for the entity `n` -/
+def bulkBody (n : Str) : J := .obj [
+  (c!"content", jsonContent (schemaRef n)), (c!"description", .str (aObject n)), (c!"required", .bool true)]
+
+theorem bodyOf_create (n : Str) (h : '/' ∉ n) : bodyOf (templatePayload .create n) = .ok (some (bodyName n, bulkBody n)) := by
+  simp [bodyOf, templatePayload, lookup, truthy, refKey, rpartition_bodyRef n h, rpartition_bodyName, bulkBody]
+theorem bodyOf_read (n : Str) : bodyOf (templatePayload .read n) = .ok none := rfl
+theorem bodyOf_destroy (n : Str) : bodyOf (templatePayload .destroy n) = .ok none := rfl
+theorem bodyOf_arr (ps : List J) : bodyOf (.arr ps) = .ok none := rfl
+
+theorem refs_payload_create (n : Str) : (templatePayload .create n).refs = [schemaRef n, schemaRef serverError, bodyRef n] := by
+  simp [templatePayload, J.refs, refsKvs, refKey, J.strVal, refs_response]
+theorem refs_payload_read (n : Str) : (templatePayload .read n).refs = [schemaRef n, schemaRef serverError] := by
+  simp [templatePayload, J.refs, refsKvs, refKey, J.strVal, refs_response]
+theorem refs_payload_destroy (n : Str) : (templatePayload .destroy n).refs = [] := by
+  simp [templatePayload, J.refs, refsKvs, refKey, J.strVal]
+theorem strVal_payload (k : Kind) (n : Str) : (templatePayload k n).strVal = [] := by
+  cases k <;> rfl
+theorem kvRefs_bulkBody (n : Str) : kvRefs (bodyName n, bulkBody n) = [schemaRef n] := by
+  simp [kvRefs, bulkBody, jsonContent, refObj, J.refs, refsKvs, refKey, J.strVal]
+  split <;> rfl
+
+/-- a value of a merged path dict: a template payload for one of the names `N`, or a `$ref`-free list (`parameters`) -/
+def TplVal (N : List Str) (v : J) : Prop :=
+  (∃ k n, n ∈ N ∧ v = templatePayload k n) ∨ (∃ ps, v = .arr ps ∧ refsList ps = [])
+
+/-- where the refs of a path-dict entry point, given the request bodies `bs` registered for the same dict -/
+def RefOK (N : List Str) (bs : List (Str × J)) (r : Str) : Prop :=
+  (∃ n, (n ∈ N ∨ n = serverError) ∧ r = schemaRef n) ∨ (∃ n ∈ N, r = bodyPrefix ++ bodyName n ∧ (bodyName n, bulkBody n) ∈ bs)
+
+theorem RefOK.mono {N : List Str} {bs bs' : List (Str × J)} {r : Str} (h : RefOK N bs r) (hs : ∀ b ∈ bs, b ∈ bs') : RefOK N bs' r := by
+  rcases h with h | ⟨n, hn, rfl, hb⟩
+  · exact Or.inl h
+  · exact Or.inr ⟨n, hn, rfl, hs _ hb⟩
+
+theorem bodiesOf_tpl (N : List Str) (hN : ∀ n ∈ N, '/' ∉ n) (pd : Dict) (h : ∀ kv ∈ pd, TplVal N kv.2) :
+    ∃ bs, bodiesOf pd = .ok bs ∧ (∀ b ∈ bs, ∃ n ∈ N, b = (bodyName n, bulkBody n)) ∧
+      (∀ kv ∈ pd, ∀ r ∈ kvRefs kv, RefOK N bs r) := by
+  induction pd with
+  | nil => exact ⟨[], rfl, by simp, by simp⟩
+  | cons x xs ih =>
+    obtain ⟨bs, hbs, hall, hrefs⟩ := ih (fun kv hkv => h kv (List.mem_cons_of_mem _ hkv))
+    obtain ⟨k0, v⟩ := x
+    rcases h (k0, v) List.mem_cons_self with ⟨k, n, hn, rfl⟩ | ⟨ps, rfl, hps⟩
+    · cases k with
+      | create =>
+        refine ⟨(bodyName n, bulkBody n) :: bs, ?_, ?_, ?_⟩
+        · simp only [bodiesOf, bodyOf_create n (hN n hn), hbs]
+        · intro b hb
+          rcases List.mem_cons.mp hb with rfl | hb
+          · exact ⟨n, hn, rfl⟩
+          · exact hall b hb
+        · intro kv hkv r hr
+          rcases List.mem_cons.mp hkv with rfl | hkv
+          · simp only [kvRefs, strVal_payload, ite_self, List.nil_append, refs_payload_create] at hr
+            simp only [List.mem_cons, List.mem_nil_iff, or_false] at hr
+            rcases hr with rfl | rfl | rfl
+            · exact Or.inl ⟨n, Or.inl hn, rfl⟩
+            · exact Or.inl ⟨serverError, Or.inr rfl, rfl⟩
+            · exact Or.inr ⟨n, hn, rfl, List.mem_cons_self⟩
+          · exact (hrefs kv hkv r hr).mono (fun b hb => List.mem_cons_of_mem _ hb)
+      | read =>
+        refine ⟨bs, ?_, hall, ?_⟩
+        · simp only [bodiesOf, bodyOf_read, hbs]
+        · intro kv hkv r hr
+          rcases List.mem_cons.mp hkv with rfl | hkv
+          · simp only [kvRefs, strVal_payload, ite_self, List.nil_append, refs_payload_read] at hr
+            simp only [List.mem_cons, List.mem_nil_iff, or_false] at hr
+            rcases hr with rfl | rfl
+            · exact Or.inl ⟨n, Or.inl hn, rfl⟩
+            · exact Or.inl ⟨serverError, Or.inr rfl, rfl⟩
+          · exact hrefs kv hkv r hr
+      | destroy =>
+        refine ⟨bs, ?_, hall, ?_⟩
+        · simp only [bodiesOf, bodyOf_destroy, hbs]
+        · intro kv hkv r hr
+          rcases List.mem_cons.mp hkv with rfl | hkv
+          · simp [kvRefs, strVal_payload, refs_payload_destroy] at hr
+          · exact hrefs kv hkv r hr
+    · refine ⟨bs, ?_, hall, ?_⟩
+      · simp only [bodiesOf, bodyOf_arr, hbs]
+      · intro kv hkv r hr
+        rcases List.mem_cons.mp hkv with rfl | hkv
+        · simp [kvRefs, J.strVal, J.refs, hps] at hr
+        · exact hrefs kv hkv r hr
+
+theorem refs_bulkParam (pk o : Str) : (bulkParam pk o).refs = [] := by
+  simp [bulkParam, J.refs, refsKvs, refKey, J.strVal]
+
+theorem refsList_routeParams (route o : Str) : refsList (routeParams route o) = [] := by
+  unfold routeParams
+  induction (List.filter (fun r => startsWith r c!":") (split1 route '/')) with
+  | nil => rfl
+  | cons x xs ih => simp only [List.map_cons, refsList, refs_bulkParam, List.nil_append]; exact ih
+
+theorem withParams_tpl (N : List Str) (route route' : Str) (pd pd' : Dict) (h : ∀ kv ∈ pd, TplVal N kv.2)
+    (hw : withParams route pd = .ok (route', pd')) : ∀ kv ∈ pd', TplVal N kv.2 := by
+  unfold withParams at hw
+  split at hw
+  · dsimp only at hw
+    split at hw
+    · simp only [Except.ok.injEq, Prod.mk.injEq] at hw
+      obtain ⟨_, rfl⟩ := hw
+      intro kv hkv
+      rcases mem_setKey _ _ _ _ hkv with hk | rfl
+      · rcases mem_setKey _ _ _ _ hk with hk | rfl
+        · exact h kv hk
+        · exact Or.inr ⟨[], rfl, rfl⟩
+      · exact Or.inr ⟨_, rfl, refsList_routeParams _ _⟩
+    · cases hw
+  · simp only [Except.ok.injEq, Prod.mk.injEq] at hw
+    obtain ⟨_, rfl⟩ := hw
+    exact h
+
+theorem updateD_mem (g : List RouteFn) (pd : Dict) (h : updateD g = .ok pd) : ∀ kv ∈ pd, ∃ r ∈ g, kv.2 = r.payload := by
+  match g, h with
+  | [a], h =>
+    simp only [updateD, Except.ok.injEq] at h; subst h
+    intro kv hkv; simp at hkv; subst hkv; exact ⟨a, by simp, rfl⟩
+  | [a, b], h =>
+    simp only [updateD, Except.ok.injEq] at h; subst h
+    intro kv hkv
+    rcases mem_setKey _ _ _ _ hkv with hk | rfl
+    · simp at hk; subst hk; exact ⟨a, by simp, rfl⟩
+    · exact ⟨b, by simp, rfl⟩
+  | [], h => simp [updateD] at h
+  | _ :: _ :: _ :: _, h => simp [updateD] at h
+
+theorem groupBy_mem (rs : List RouteFn) : ∀ kg ∈ groupBy rs, ∀ r ∈ kg.2, r ∈ rs := by
+  induction rs with
+  | nil => intro kg h; cases h
+  | cons r rs ih =>
+    intro kg hkg x hx
+    simp only [groupBy] at hkg
+    split at hkg
+    · rename_i k g rest heq
+      split at hkg
+      · rcases List.mem_cons.mp hkg with rfl | hkg
+        · rcases List.mem_cons.mp hx with rfl | hx
+          · exact List.mem_cons_self
+          · exact List.mem_cons_of_mem _ (ih (k, g) (by rw [heq]; exact List.mem_cons_self) x hx)
+        · exact List.mem_cons_of_mem _ (ih kg (by rw [heq]; exact List.mem_cons_of_mem _ hkg) x hx)
+      · rcases List.mem_cons.mp hkg with rfl | hkg
+        · simp at hx; subst hx; exact List.mem_cons_self
+        · exact List.mem_cons_of_mem _ (ih kg (by rw [heq]; exact hkg) x hx)
+    · simp at hkg; subst hkg; simp at hx; subst hx; exact List.mem_cons_self
+
+theorem mem_update {α} (d b : List (Str × α)) : ∀ kv ∈ update d b, kv ∈ d ∨ kv ∈ b := by
+  unfold update
+  induction b generalizing d with
+  | nil => intro kv h; exact Or.inl h
+  | cons x xs ih =>
+    intro kv h
+    rw [List.foldl_cons] at h
+    rcases ih _ kv h with h | h
+    · rcases mem_setKey _ _ _ _ h with h | rfl
+      · exact Or.inl h
+      · exact Or.inr List.mem_cons_self
+    · exact Or.inr (List.mem_cons_of_mem _ h)
+
+theorem hasKey_update {α} (d b : List (Str × α)) (n : Str) (h : hasKey d n = true) : hasKey (update d b) n = true := by
+  unfold update
+  induction b generalizing d with
+  | nil => exact h
+  | cons x xs ih => rw [List.foldl_cons]; exact ih _ (hasKey_setKey _ _ _ _ h)
+
+theorem hasKey_update_mem {α} (d b : List (Str × α)) (kv : Str × α) (h : kv ∈ b) : hasKey (update d b) kv.1 = true := by
+  unfold update
+  induction b generalizing d with
+  | nil => cases h
+  | cons x xs ih =>
+    rw [List.foldl_cons]
+    rcases List.mem_cons.mp h with rfl | h
+    · exact hasKey_update (α := α) _ xs _ (hasKey_setKey_self _ _ _)
+    · exact ih _ h
+
+/-! the `schemas` dict of `openapi_bulk` -/
+
+theorem mem_foldl_tables (ts : List Table) (acc : Dict) :
+    ∀ kv ∈ ts.foldl (fun (acc : Dict) t => setKey acc (bulkKey t.name) (.obj t.schema)) acc,
+      kv ∈ acc ∨ ∃ t ∈ ts, kv = (bulkKey t.name, .obj t.schema) := by
+  induction ts generalizing acc with
+  | nil => intro kv h; exact Or.inl h
+  | cons t ts ih =>
+    intro kv h
+    rw [List.foldl_cons] at h
+    rcases ih _ kv h with h | ⟨t', ht', rfl⟩
+    · rcases mem_setKey _ _ _ _ h with h | rfl
+      · exact Or.inl h
+      · exact Or.inr ⟨t, List.mem_cons_self, rfl⟩
+    · exact Or.inr ⟨t', List.mem_cons_of_mem _ ht', rfl⟩
+
+theorem hasKey_foldl_tables (ts : List Table) (acc : Dict) (t : Table) (ht : t ∈ ts) :
+    hasKey (ts.foldl (fun (acc : Dict) t => setKey acc (bulkKey t.name) (.obj t.schema)) acc) (bulkKey t.name) = true := by
+  induction ts generalizing acc with
+  | nil => cases ht
+  | cons x xs ih =>
+    rw [List.foldl_cons]
+    rcases List.mem_cons.mp ht with rfl | ht
+    · have : ∀ (l : List Table) (a : Dict) (n : Str), hasKey a n = true →
+          hasKey (l.foldl (fun (acc : Dict) t => setKey acc (bulkKey t.name) (.obj t.schema)) a) n = true := by
+        intro l
+        induction l with
+        | nil => intro a n h; exact h
+        | cons y ys ihy => intro a n h; rw [List.foldl_cons]; exact ihy _ _ (hasKey_setKey _ _ _ _ h)
+      exact this xs _ _ (hasKey_setKey_self _ _ _)
+    · exact ih _ ht
+
+theorem hasKey_map_fst {α β} (d : List (Str × α)) (f : Str × α → β) (n : Str) :
+    hasKey (d.map (fun kv => (kv.1, f kv))) n = hasKey d n := by
+  simp [hasKey, List.any_map, Function.comp_def]
+
+theorem hasKey_bulkSchemas_table (ts : List Table) (t : Table) (ht : t ∈ ts) : hasKey (bulkSchemas ts) (bulkKey t.name) = true := by
+  unfold bulkSchemas
+  rw [hasKey_map_fst (f := fun kv => stripSchema kv.2)]
+  exact hasKey_setKey _ _ _ _ (hasKey_foldl_tables ts [] t ht)
+
+theorem hasKey_bulkSchemas_server (ts : List Table) : hasKey (bulkSchemas ts) serverError = true := by
+  unfold bulkSchemas
+  rw [hasKey_map_fst (f := fun kv => stripSchema kv.2)]
+  exact hasKey_setKey_self _ _ _
+
+theorem bulkSchemas_norefs (ts : List Table) (h : ∀ t ∈ ts, refsKvs t.schema = []) : ∀ kv ∈ bulkSchemas ts, kvRefs kv = [] := by
+  intro kv hkv
+  unfold bulkSchemas at hkv
+  simp only [List.mem_map] at hkv
+  obtain ⟨x, hx, rfl⟩ := hkv
+  rcases mem_setKey _ _ _ _ hx with hx | rfl
+  · rcases mem_foldl_tables ts [] x hx with hx | ⟨t, ht, rfl⟩
+    · cases hx
+    · simp only [stripSchema, kvRefs_obj]; exact refsKvs_filter_nil _ _ (h t ht)
+  · simp only [stripSchema, kvRefs_obj]; decide
+
 end OpenApi
